@@ -29,7 +29,9 @@ def run_case(case, rng):
 
     n_max = 8 if case.tier == "thorough" and rng.random() < 0.3 else 5
     gamma = rng.choice([0.5, 0.9, 0.95, 0.99] * 3 + [0.0, 0.01])      # the lower end point occasionally
-    sticky = gamma == 0.99 and rng.random() < 0.7
+    if rng.random() < 0.03:
+        gamma = rng.choice([0.9995, 0.9998])      # a horizon of thousands of steps: the inner value iteration needs ~ln(1/tol)/(1-gamma) sweeps
+    sticky = gamma > 0.99 or (gamma == 0.99 and rng.random() < 0.7)
     sp = G.random_spec(rng, "proper", n_max=(3 if sticky else n_max), a_max=(2 if sticky else 3), uniform_actions=True,
                        allow_implicit=False, gamma=gamma, allow_dup_actions=False,
                        reward_sign=("neg" if sticky else None), near_dup_actions=(rng.random() < 0.3),
